@@ -20,11 +20,14 @@ RULE = ("distinct (policy list, request) pairs in which some rule has at least t
 TRUSTED_BASE = [
     "Coq 8.16.1 kernel + vm_compute (case files); no native_compute, no extraction",
     "hand-written model C01_Model.v tied to /repo by the differential run of this check (Go harness harness/c01: "
-    "clusters.MatchPolicies and ClusterInfo.MatchAttributes on real ClusterInfo objects, one add-only export)",
+    "clusters.MatchPolicies and ClusterInfo.MatchAttributes on real ClusterInfo objects, one add-only export; overlap "
+    "cases: the real ClusterInfo.Sync(new list) is run from inside the k-th attribute getter call of a MatchAttributes)",
     "modelled not verified: Go strings.HasPrefix/HasSuffix/TrimRight (Prelude functions), atomic.Value holding the "
     "policy list, authorizer.AttributesRecord getters; the dispatcher's error branch is read, not executed",
 ]
 ASSUMPTIONS = [
+    "overlap cases pin the interleaving in one goroutine (Sync runs inside an attribute getter, i.e. after the list was "
+    "loaded); memory-model effects of truly parallel Sync/MatchAttributes beyond atomic.Value's load/store are not modelled",
     "request attributes carry a non-nil user (the dispatcher refuses requests without user info before routing)",
     "an inverted entry is read entry-wise: '-x' excludes what the entry 'x' matches by equality/'*/sub'/glob; "
     "'-*' and '--x' are not given the meaning of '*' / '-x' (the documentation does not define them)",
@@ -523,7 +526,9 @@ LEVEL_TEXT = ("full proof: Coq theorems over every request attribute tuple and e
               "(any mix of positive, inverted, wildcard, empty and glob entries, any order): the Gallina model of "
               "filterRules/simpleMatches/the seven field matchers/RuleMatches/MatchPolicies/MatchAttributes chooses exactly "
               "the least-index policy having a rule that matches under the documented semantics, rejects iff there is "
-              "none, plus one theorem per documented clause; the model is compared with the real clusters.MatchPolicies "
+              "none, plus one theorem per documented clause, and a match overlapping a Sync of the policy list answers "
+              "with the decision under the old or under the new list at every interruption point of the model's "
+              "evaluation order (heap model: Sync allocates, never overwrites a stored array); the model is compared with the real clusters.MatchPolicies "
               "and ClusterInfo.MatchAttributes (fresh and aged ClusterInfo) on generated cases on every run and the "
               "executable spec is evaluated on the real observations")
 LEVEL_NOTE = ("trusted: Coq kernel + vm_compute, the hand-written model (tied by differential run only), Go harness and "
